@@ -28,8 +28,14 @@ missing = sorted(stable - passed)
 print("RESULT tests stable_pass=%d passed_now=%d missing=%d %s" % (len(stable), len(passed), len(missing), missing[:3]))
 EOF
 fi
+# the checks run from a scratch copy of /verif so that evidence/ and replays/ of the
+# repository are only ever written by runs against /repo itself
+vc=/tmp/seedrun_verif_$name
+rm -rf "$vc"; mkdir -p "$vc"
+rsync -a --exclude .git --exclude replays --exclude evidence --exclude seeded --exclude fixes /verif/ "$vc"/
+trap 'git -C /repo worktree remove --force "$wt" >/dev/null 2>&1; git -C /repo worktree prune; rm -rf "$vc"' EXIT
 for pid in "$@"; do
-  ( cd /verif && VERIF_REPO="$wt" ./check "$pid" --tier quick > /tmp/seedrun_${name}_$pid.log 2>&1 ); rc=$?
+  ( cd "$vc" && VERIF_REPO="$wt" ./check "$pid" --tier quick > /tmp/seedrun_${name}_$pid.log 2>&1 ); rc=$?
   labels=$(grep -o "\[[A-Za-z0-9:._-]* at event" /tmp/seedrun_${name}_$pid.log | sort | uniq -c | sort -rn | head -4 | tr '\n' ' ')
   echo "RESULT $name check=$pid exit=$rc $(grep -c VIOLATION /tmp/seedrun_${name}_$pid.log) violations; $labels $(grep -m1 'MACHINERY' /tmp/seedrun_${name}_$pid.log | cut -c1-150)"
 done
